@@ -156,7 +156,7 @@ fn expected(f: &str, members: &[Option<V>], a1: Option<&V>, a2: Option<&V>) -> E
             for m in members {
                 match m {
                     Some(V::Int(i)) => {
-                        if i.abs() > (1 << 52) {
+                        if i.unsigned_abs() > (1u64 << 52) {
                             return Exp::Unspecified;
                         }
                         out.push(V::Float(*i as f64))
